@@ -26,9 +26,9 @@ THEOREMS = [
     "local_form_partial", "mixed_element_form_default_refuted",
     "model_is_denotation", "equal_denotation_equal_views", "group_wrapper_flat", "global_elements_by_the_rules",
     "deref_sorted_is_resolution", "merge_any_order_when_targets_stable", "deref_wrong_order_refuted",
-    "wsdl_link_order_independent", "resolve_order_immaterial", "wrapped_rule",
+    "wsdl_link_order_independent", "resolve_order_immaterial", "wrapped_rule", "body_parts_naming_all_is_default",
     "schema_merge_is_union", "merge_symbol_spaces_separate", "merge_wrong_table_refuted",
-    "merged_tables_are_the_declarations",
+    "merged_tables_are_the_declarations", "merge_skips_no_schema", "namespace_block_order_independent",
 ]
 
 PRE_D = "From SV Require Import Lib.Base C07.DepSort."
@@ -375,7 +375,7 @@ class Iface(object):
             kind, owner, _ = r[0]
             if kind == "wrapper" and t.ns == 0:
                 self.anonymizable.add(key)
-            elif kind == "elem" and owner is not t and owner.ns == t.ns:
+            elif kind == "elem" and owner is not t and owner.ns == t.ns and r[0][2].ns == owner.ns:
                 self.anonymizable.add(key)
                 if r[0][2].opt:
                     self.anon_optional.add(key)
@@ -404,10 +404,17 @@ class Plan(object):
     ENABLE_DECL_ON_USE = False      # set by run_render when PROPOSED_D is a listed finding
     ENABLE_ANON_OPTIONAL = False    # set by run_render when PROPOSED_E is a listed finding
 
-    def __init__(self, rng, iface, baseline=False):
+    def __init__(self, rng, iface, baseline=False, variant=None):
         from . import family as F
         S = iface.S
         nns = len(S.namespaces)
+        # explicit dimensions: order of the namespaces' blocks, which namespaces a block xs:imports
+        # ("all" others / "needed" only / "cycle": the real namespaces import each other, the auxiliary one is
+        # imported by nobody and imports nothing / "random": needed + some), soap:body parts= lists
+        self.ns_order = list(range(nns))
+        self.imports = "all"
+        self.interleave = False
+        self.body_parts = False
         self.baseline = baseline
         r = rng.random
         if baseline:
@@ -481,6 +488,17 @@ class Plan(object):
         self.wsdl_default_tns = r() < 0.2   # unprefixed WSDL references under xmlns="<tns>"
         self.decl_on_use = self.ENABLE_DECL_ON_USE and r() < 0.15
         self.collide_names = r() < 0.5      # groups / attribute groups named like the type they come from
+        self.body_parts = r() < 0.5         # <soap:body parts="..."> naming ALL parts of the message
+        perm = list(range(nns))
+        rng.shuffle(perm)
+        mode = rng.choice(["all", "needed", "cycle", "random"])
+        inter = r() < 0.5
+        if variant == 0:                    # every interface is rendered with the namespaces reversed ...
+            self.ns_order, self.imports, self.interleave, self.body_parts = list(reversed(range(nns))), "cycle", False, True
+        elif variant == 1:                  # ... and in their plain order with the fewest imports
+            self.ns_order, self.imports, self.interleave, self.body_parts = list(range(nns)), "needed", False, False
+        else:
+            self.ns_order, self.imports, self.interleave = perm, mode, inter
 
     def features(self):
         f = set()
@@ -500,6 +518,12 @@ class Plan(object):
             f.add("prefix-declared-on-port-or-input")
         if self.collide_names and (self.groups or self.agroups):
             f.add("same-name-other-symbol-space")
+        if self.ns_order != sorted(self.ns_order) or self.interleave:
+            f.add("namespace-block-order")
+        if self.imports != "all":
+            f.add("imports-" + self.imports)
+        if self.body_parts:
+            f.add("soap-body-parts")
         if self.shuffle:
             f.add("declaration-order")
         if self.wsdl_shuffle:
@@ -543,7 +567,7 @@ def build_ast(iface, plan):
     def conv_particle(p, t):
         if isinstance(p, F.Elem):
             tref, anon = conv_tref(p.tref, t.ns)
-            if p.name in plan.refs:
+            if p.name in plan.refs or p.ns != t.ns:
                 decls[p.ns].append((("element", p.name),
                                     CE(name=p.name, tref=tref, anon=anon, nillable=p.nillable, default=p.default)))
                 return CE(ref=(p.ns, p.name), opt=p.opt, multi=p.multi)
@@ -738,13 +762,75 @@ def split_blocks(iface, plan, decls):
                 prng.shuffle(blocks[b])
         for b in range(nb):
             out.append((ns, b, blocks[b]))
-    if plan.shuffle:
-        # blocks of different namespaces may interleave; blocks of one namespace keep their order
+    # the namespaces' blocks in the plan's order; blocks of one namespace keep their order and, when the plan
+    # says so, interleave with those of other namespaces
+    out = [x for ns in plan.ns_order for x in out if x[0] == ns]
+    if plan.interleave:
         labels = [x[0] for x in out]
         prng.shuffle(labels)
         queues = dict((ns, [x for x in out if x[0] == ns]) for ns in set(labels))
         out = [queues[ns].pop(0) for ns in labels]
     return out
+
+
+def needed_namespaces(decls_of_ns):
+    """namespace indexes the declarations of one namespace refer to"""
+    found = set()
+
+    def tr(t):
+        if t is not None and t[0] == "n":
+            found.add(t[1])
+
+    def part(p):
+        if isinstance(p, CE):
+            if p.ref is not None:
+                found.add(p.ref[0])
+            tr(p.tref)
+            if p.anon is not None:
+                typ(p.anon)
+        elif isinstance(p, CG):
+            found.add(p.ref[0])
+        elif isinstance(p, CC):
+            for k in p.kids:
+                part(k)
+
+    def typ(t):
+        if t.base:
+            found.add(t.base[0])
+        for p in t.content:
+            part(p)
+        for a in t.attrs:
+            if isinstance(a, CAG):
+                found.add(a.ref[0])
+    for _, d in decls_of_ns:
+        if isinstance(d, CT):
+            typ(d)
+        elif isinstance(d, CE):
+            part(d)
+        elif isinstance(d, CGroupDef):
+            part(d.content)
+        elif isinstance(d, CAGroupDef):
+            for a in d.attrs:
+                if isinstance(a, CAG):
+                    found.add(a.ref[0])
+    return found
+
+
+def imports_of(iface, plan, decls, ns):
+    nns = len(iface.S.namespaces)
+    aux = nns - 1
+    need = needed_namespaces(decls[ns]) - {ns}
+    if plan.imports == "all":
+        return [i for i in range(nns) if i != ns]
+    if plan.imports == "needed":
+        return sorted(need)
+    if plan.imports == "cycle":
+        if ns == aux:
+            return []
+        return sorted(need | set(i for i in range(nns) if i not in (ns, aux)))
+    import random
+    prng = random.Random("%d/imports/%d" % (plan.seed, ns))
+    return sorted(need | set(i for i in range(nns) if i != ns and prng.random() < 0.4))
 
 
 def render(iface, plan):
@@ -765,8 +851,8 @@ def render(iface, plan):
         if plan.shuffle and prng.random() < 0.5:
             attrs.reverse()
         attrs += c.nsdecls()
-        imports = "".join("      <%s namespace=\"%s\"/>\n" % (c.x("import"), u)
-                          for i, (u, _) in enumerate(S.namespaces) if i != ns)
+        imports = "".join("      <%s namespace=\"%s\"/>\n" % (c.x("import"), S.namespaces[i][0])
+                          for i in imports_of(iface, plan, decls, ns))
         texts.append("    <%s %s>\n%s%s\n    </%s>" % (c.x("schema"), " ".join(attrs), imports,
                                                        "\n".join(write_decl(c, d) for _, d in ds), c.x("schema")))
     tns = S.namespaces[0][0]
@@ -822,14 +908,19 @@ def render(iface, plan):
                   '<%soutput message="%s"/>' % (W, wref(op.name + "Out"))]
         pt.setdefault(style, []).append((op.name, '    <%soperation name="%s">%s</%soperation>'
                                          % (W, op.name, "".join(io), W)))
-        if style == "rpc":
-            body = '<%sbody use="literal" namespace="%s"/>' % (SP, S.namespaces[op.body_ns][0])
-        else:
-            body = '<%sbody use="literal"/>' % SP
+        # <soap:body parts="..."> naming ALL parts of the message is the same binding as none at all
+        in_names = [x[0] for x in in_struct]
+        out_names = [x[0] for x in out_struct]
+        pin = (' parts="%s"' % " ".join(in_names)) if (plan.body_parts and in_names) else ""
+        pout = (' parts="%s"' % " ".join(out_names)) if (plan.body_parts and out_names) else ""
+        nsattr = (' namespace="%s"' % S.namespaces[op.body_ns][0]) if style == "rpc" else ""
+        body_in = '<%sbody use="literal"%s%s/>' % (SP, nsattr, pin)
+        body_out = '<%sbody%s use="literal"%s/>' % (SP, pout, nsattr)
         bd.setdefault(style, []).append((op.name,
             '    <%soperation name="%s"><%soperation soapAction="act_%s" style="%s"/>'
             '<%sinput>%s</%sinput><%soutput>%s</%soutput></%soperation>'
-            % (W, op.name, SP, op.name, style, W, body, W, W, body, W, W)))
+            % (W, op.name, SP, op.name, style, W, body_in, W, W, body_out, W, W),
+            in_names if pin else None, out_names if pout else None))
     pieces = list(msgs)
     port_struct = []
     for style in ("document", "rpc"):
@@ -842,11 +933,11 @@ def render(iface, plan):
         pieces.append((("pt", "pt_" + style, [(n, n + "In", n + "Out") for n, _ in ops_pt]),
                        '  <%sportType name="pt_%s"%s>\n%s\n  </%sportType>'
                        % (W, style, here(), "\n".join(t for _, t in ops_pt), W)))
-        pieces.append((("bd", "b_" + style, "pt_" + style, [n for n, _ in ops_bd]),
+        pieces.append((("bd", "b_" + style, "pt_" + style, [(x[0], x[2], x[3]) for x in ops_bd]),
                        '  <%sbinding name="b_%s" type="%s"%s>\n'
                        '    <%sbinding style="%s" transport="http://schemas.xmlsoap.org/soap/http"/>\n%s\n'
                        '  </%sbinding>' % (W, style, wref("pt_" + style), here(), SP, style,
-                                           "\n".join(t for _, t in ops_bd), W)))
+                                           "\n".join(x[1] for x in ops_bd), W)))
         port_struct.append(("port_" + style, "b_" + style))
         if plan.decl_on_use:
             ports.append('    <%sport name="port_%s" xmlns:u_="%s" binding="u_:b_%s"><%saddress '
@@ -961,16 +1052,33 @@ class DerefTap(object):
         self.SX.Schema.dereference = self.orig
         return False
 
-    def fields(self, o, ids, objs):
+    @staticmethod
+    def qualified_type(o):
+        """o.type as SchemaObject.qualify would leave it, computed WITHOUT touching o (merge() starts with
+        other.qualify(): the store holds references in qualified form)"""
+        import suds.xsd
+        from suds.sax import Namespace
+        t = getattr(o, "type", None)
+        if t is None or suds.xsd.isqref(t):
+            return t
+        defns = o.root.defaultNamespace()
+        if Namespace.none(defns):
+            defns = o.schema.tns
+        return suds.xsd.qualify(t, o.root, defns)
+
+    def fields(self, o, ids, objs, qualified=False):
         def oid(c):
             if id(c) not in ids:
                 ids[id(c)] = len(ids) + 1
                 if objs is not None:
                     objs.append(c)
             return ids[id(c)]
+
+        def val(n):
+            v = self.qualified_type(o) if (qualified and n == "type") else getattr(o, n, None)
+            return None if v is None else repr(v)
         return (oid(o), self.CLS.get(type(o).__name__, "ClsOther"),
-                [None if getattr(o, n, None) is None else repr(getattr(o, n))
-                 for n in ("default", "max", "min", "name", "qname", "type")],
+                [val(n) for n in ("default", "max", "min", "name", "qname", "type")],
                 bool(o.nillable), [ids.setdefault(id(c), len(ids) + 1) for c in o.rawchildren])
 
     def before(self, schema):
@@ -996,7 +1104,9 @@ class DerefTap(object):
                     targets.append(d)
             keys.append((ids[id(x)], [ids[id(d)] for d in deps]))
         objs = objs + targets
-        state = [self.fields(o, ids, None) for o in objs]
+        # before: targets in another Schema have not been qualified yet; the model reads their type= through
+        # the qualification merge() applies first.  after: exactly what the objects hold.
+        state = [self.fields(o, ids, None, qualified=True) for o in objs]
         return objs, ids, keys, state, odd
 
 
@@ -1107,6 +1217,15 @@ def gen_iface(rng):
         ops.append(F.Op("bare1", "bare", parts=[("h1", ("b", rng.choice(F.BUILTINS)))]))
     ops.append(F.Op("rpc0", "rpc", parts=[("x", ("n", tr.ns, tr.name)), ("y", ("b", b2))],
                     body_ns=rng.randrange(len(S.namespaces))))
+    # members whose name lives in ANOTHER namespace of the interface than the type they belong to: XSD can only
+    # write them as <element ref=.../> to a global (typed) element of that namespace, in every rendering
+    n_real = len(S.namespaces)
+    if n_real >= 2:
+        cands = [(t, p) for t in S.types for c in t.content for p in _elems_of(c)]
+        rng.shuffle(cands)
+        for t, p in cands[:rng.choice([1, 2, 2, 3])]:
+            p.ns = rng.choice([i for i in range(n_real) if i != t.ns])
+            p.qualified = True
     # same-named declarations in different symbol spaces, in every namespace: an element named like a type
     # (and of that type), a global attribute named like a type, one named like a global element
     extras = []
@@ -1117,7 +1236,19 @@ def gen_iface(rng):
             extras.append(("element", ns, t.name, ("n", t.ns, t.name)))
             extras.append(("attribute", ns, rng.choice(ts).name, "string"))
     extras.append(("attribute", 0, ops[0].name, "int"))
+    # one more namespace that nothing refers to and that refers to nothing (its schema block imports nothing)
+    S.namespaces.append(("urn:fam:aux", rng.random() < 0.5))
+    extras.append(("element", n_real, "auxItem", ("b", "string")))
     return Iface(S, ops, extras)
+
+
+def _elems_of(p):
+    from . import family as F
+    if isinstance(p, F.Elem):
+        return [p]
+    if isinstance(p, F.Cont):
+        return [e for k in p.kids for e in _elems_of(k)]
+    return []
 
 
 def strip_anon(iface, v):
@@ -1476,7 +1607,10 @@ def wsdl_case_lit(iface, children, impl, I):
             ch.append("(WPortType %s %s)" % (cN(I(c[1])), clist(
                 ["(mkPtOp %s (Some %s) (Some %s))" % (cN(I(n)), ref(i), ref(o)) for n, i, o in c[2]], "ptop")))
         elif c[0] == "bd":
-            ch.append("(WBinding %s %s true %s)" % (cN(I(c[1])), ref(c[2]), clist([cN(I(n)) for n in c[3]], "N")))
+            def sel(l):
+                return copt(clist([cN(I(x)) for x in l], "N") if l is not None else None, "list N")
+            ch.append("(WBinding %s %s true %s)" % (cN(I(c[1])), ref(c[2]), clist(
+                ["(mkBOp %s %s %s)" % (cN(I(n)), sel(li), sel(lo)) for n, li, lo in c[3]], "bop")))
         else:
             ch.append("(WService %s %s)" % (cN(I(c[1])), clist(["(%s, %s)" % (cN(I(pn)), ref(b)) for pn, b in c[2]],
                                                                "N * qn")))
@@ -1607,6 +1741,10 @@ def toggles(plan, iface):
                     setattr(q, "local_wsdl_decl", False))),
         ("redundant-attributes", plan.redundant, lambda q: setattr(q, "redundant", False)),
         ("same-name-other-symbol-space", plan.collide_names, lambda q: setattr(q, "collide_names", False)),
+        ("namespace-block-order", plan.ns_order != sorted(plan.ns_order) or plan.interleave,
+         lambda q: (setattr(q, "ns_order", sorted(plan.ns_order)), setattr(q, "interleave", False))),
+        ("xs-imports", plan.imports != "all", lambda q: setattr(q, "imports", "all")),
+        ("soap-body-parts", plan.body_parts, lambda q: setattr(q, "body_parts", False)),
     ]
     for name, present, f in generic:
         if present:
@@ -1828,7 +1966,7 @@ def run_render(ck, unproved):
         wchildren = [r0.children]
         taps = [(base, tap0)]
         for k in range(K):
-            plan = Plan(rng, iface)
+            plan = Plan(rng, iface, variant=k)
             rk = render(iface, plan)
             wsdl, blocks = rk
             U.expat_parse(wsdl)                  # the renderer must write well-formed documents
@@ -2222,7 +2360,12 @@ def run(ck):
         "per-block respellings incl. shadowing), default namespace (XSD, WSDL, own target namespace), order of "
         "top-level declarations and of schema blocks, named vs anonymous types, group / attributeGroup factoring, "
         "element ref vs inline, 1-3 blocks per namespace (optionally with differing elementFormDefault compensated by "
-        "form=), WSDL children order, redundant attributes",
+        "form=), the order of the namespaces' blocks (every interface is rendered at least in plain and in reversed "
+        "namespace order), which namespaces each block xs:imports (all / only the needed ones / mutual imports "
+        "between the real namespaces with an independent auxiliary namespace / needed + random), soap:body parts= "
+        "lists naming all parts, WSDL children order, redundant attributes; the interfaces carry members whose "
+        "name lives in another namespace than their type (always written as ref to a typed global element), "
+        "same-named declarations in different symbol spaces and an auxiliary namespace nothing refers to",
         "not generated: unprefixed references without a default namespace (suds resolves them to the "
         "targetNamespace, XSD to no namespace), prefix declarations on wsdl:port/wsdl:input (suds resolves WSDL "
         "references against the enclosing portType/binding/service element only), xmlns=\"\" undeclarations",
